@@ -34,20 +34,20 @@ def _stage(conf: str, name: str) -> str:
     return common.stage_spec({"StoreConf.tla": conf}, name)
 
 
-def design_run(cap: int, cache_absent: bool, kind: str, name: str) -> common.TLCResult:
-    d = _stage(storeconf.design(KEYS, NONE_KEYS, NPATHS, cap, cache_absent, kind, 1000000, False), name)
+def design_run(cap: int, cache_absent: bool, kind: str, name: str, sync_absent: bool = False) -> common.TLCResult:
+    d = _stage(storeconf.design(KEYS, NONE_KEYS, NPATHS, cap, cache_absent, kind, 1000000, False, sync_absent=sync_absent), name)
     return common.run_tlc(d, "StoreModel.tla", "StoreModel_design.cfg", timeout=600)
 
 
-def gen_exhaustive(cap: int, kind: str, depth: int, name: str) -> List[List[Dict[str, Any]]]:
-    d = _stage(storeconf.design(KEYS, NONE_KEYS, NPATHS, cap, False, kind, depth, True), name)
+def gen_exhaustive(cap: int, kind: str, depth: int, name: str, sync_absent: bool = False) -> List[List[Dict[str, Any]]]:
+    d = _stage(storeconf.design(KEYS, NONE_KEYS, NPATHS, cap, False, kind, depth, True, sync_absent=sync_absent), name)
     r = common.run_tlc(d, "StoreModel.tla", "StoreModel_gen.cfg", timeout=600, workers=1)
     common.tlc_must_pass(r, "StoreModel generation")
     return r.printed("HIST")
 
 
-def gen_simulated(cap: int, kind: str, depth: int, num: int, seed: int, name: str) -> List[List[Dict[str, Any]]]:
-    d = _stage(storeconf.design(KEYS, NONE_KEYS, NPATHS, cap, False, kind, depth, True), name)
+def gen_simulated(cap: int, kind: str, depth: int, num: int, seed: int, name: str, sync_absent: bool = False) -> List[List[Dict[str, Any]]]:
+    d = _stage(storeconf.design(KEYS, NONE_KEYS, NPATHS, cap, False, kind, depth, True, sync_absent=sync_absent), name)
     r = common.run_tlc(d, "StoreModel.tla", "StoreModel_gen.cfg", timeout=600, workers=1,
                        extra=["-simulate", "num=%d" % num, "-depth", str(depth + 1), "-seed", str(seed + 1)])
     if r.rc != 0 or r.violated:
@@ -369,6 +369,12 @@ def run_c12(tier: str) -> int:
             common.tlc_must_pass(r, "StoreModel design cap=%d (%s)" % (cap, kind))
             states += r.distinct
             trans += r.generated
+    # paths committed to keys whose blob is not stored (a keep in a branch that is not executed): the cache
+    # layer must stay invisible there too (design level: capacity 2, memory kind)
+    ra = design_run(2, False, "memory", "d12_absent", sync_absent=True)
+    common.tlc_must_pass(ra, "StoreModel design cap=2 (memory, commits to absent keys)")
+    states += ra.distinct
+    trans += ra.generated
     # the invariant is not vacuous: the pinned tree's algorithm (cache the None of an absent key) is rejected
     rm = design_run(2, True, "local", "d12_mut")
     if rm.no_error or rm.violated not in ("CacheCoherent", "Invisible"):
@@ -381,6 +387,9 @@ def run_c12(tier: str) -> int:
     for cap in caps:
         for kind in ("local", "memory"):
             hs = gen_simulated(cap, kind, 14, nsim, seed + cap, "g12_%s_%d" % (kind, cap))
+            # the same number again with commits to keys that are not stored (wrapped vs bare only: what the
+            # bare stores answer there is not part of the store contract of C08)
+            hs += gen_simulated(cap, kind, 10, nsim, seed + cap + 50, "g12a_%s_%d" % (kind, cap), sync_absent=True)
             if cap == 1 and (kind == "local" or tier == "thorough"):
                 ex = gen_exhaustive(cap, kind, 3 if tier == "quick" else 4, "g12e_" + kind)
                 # depth 4 gives ~100 k sequences per store kind: one in ten (gc.collect() after
@@ -403,6 +412,15 @@ def run_c12(tier: str) -> int:
         n += 1
         sname = "%s+lru%d" % (kind.replace("@2", "-two-handles"), cap)
         evict = len(set(x["arg"] for x in h if x["op"] == "fetch")) > cap
+        st_ = set()
+        absent_commit = False
+        for x in h:
+            if x["op"] == "store":
+                st_.add(x["arg"])
+            elif x["op"] == "reopen" and kind == "memory":
+                st_ = set()
+            elif x["op"] == "sync" and any(k_ not in st_ for (_, k_) in x["arg"]):
+                absent_commit = True
         absent_probe = False
         stored = set()
         for x in h:
@@ -422,6 +440,8 @@ def run_c12(tier: str) -> int:
                               {"store": sname, "ops": h[: j + 1], "wrapped": w["ans"], "bare": b["ans"], "model": exp})
                 break
             if b["ans"] != exp:
+                if absent_commit:
+                    continue     # outside the store contract: only wrapped vs bare counts
                 # the bare store disagrees with the model: C08's business, not C12's; stop comparing
                 rep.notes.append("bare store deviates from the model at %s (see C08)" % x["op"])
                 break
